@@ -299,7 +299,7 @@ func (b *Builder) Pair(depth int) (*spec.T, *spec.T) {
 		choices[0].w = 14
 		choices = append(choices,
 			choice{"ptr", 12}, choice{"tptr", 8}, choice{"slice", 12}, choice{"map", 8},
-			choice{"struct", 22}, choice{"ustruct", 6}, choice{"nmap", 4}, choice{"nslice", 4}, choice{"generic", 4}, choice{"bytes", 4})
+			choice{"struct", 22}, choice{"ustruct", 6}, choice{"nmap", 4}, choice{"nslice", 4}, choice{"generic", 4}, choice{"bytes", 4}, choice{"ucontainer", 5})
 		if b.O.Flags {
 			choices = append(choices, choice{"sptr", 6})
 		}
@@ -330,6 +330,10 @@ func (b *Builder) Pair(depth int) (*spec.T, *spec.T) {
 	}
 	if b.O.Exotic {
 		choices = append(choices, choice{"exotic", 5})
+	}
+	if b.inUpdate && depth > 0 && !b.comparableOnly && !b.noNillable {
+		// zero guards over nillable members: more maps, named and unnamed
+		choices = append(choices, choice{"nmap", 8}, choice{"map", 6})
 	}
 	if b.O.Fallible && depth > 0 {
 		// error locations are made of fields, indices and keys: more containers above the functions
@@ -430,6 +434,23 @@ func (b *Builder) Pair(depth int) (*spec.T, *spec.T) {
 	case "slice":
 		s, t := b.pairAssign(depth - 1)
 		return spec.Slice(s), spec.Slice(t)
+	case "ucontainer":
+		// an unnamed struct as element / pointee: goverter has to spell the struct type (make, var),
+		// with its tags and embedded fields
+		if b.inUpdate && b.OpenNestedStale || b.comparableOnly || b.noNillable {
+			return b.leafBasic()
+		}
+		fs, ft := b.fields(depth-1, nil, nil)
+		su, tu := spec.Struct(fs...), spec.Struct(ft...)
+		switch b.draw(3, "ucontainer-kind") {
+		case 0:
+			return spec.Slice(su), spec.Slice(tu)
+		case 1:
+			ks, kt := b.keyPair()
+			return spec.Map(ks, su), spec.Map(kt, tu)
+		default:
+			return spec.Ptr(su), spec.Ptr(tu)
+		}
 	case "bytes":
 		// byte slices: the shape "optimised" copies are written for
 		spell := func() *spec.T { return spec.Basic([]string{"byte", "uint8"}[b.draw(2, "byte-spelling")]) }
